@@ -153,6 +153,53 @@ def run(ctx):
                 exp.append(("KEYS", ids, cols)); tags.append(("query", repr(inp)))
             if len(res.samples) < 3 and len(ids) > 2 and cols:
                 res.sample({k: v for k, v in inp.items() if k != "lines"} | {"returned": ids})
+    # the distinct lists and counts follow the content through a history on ONE FeatureDB object ----------------------
+    import warnings
+    for hi in range(15 if not ctx.thorough else 150):
+        feats = rand_set(r, r.randrange(4, 15))
+        path = dbside.write_lines(os.path.join(ctx.scratch, "c11h.gff3"), lines_of(feats))
+        db, rep = dbside.py_create(path, dbside.Cfg())
+        if db is None:
+            continue
+        alive = list(feats)
+        steps = []
+
+        def check(when):
+            fts = sorted(db.featuretypes()); sq = sorted(db.seqids())
+            wf = sorted(set(f["ftype"] for f in alive)); ws = sorted(set(f["seqid"] for f in alive))
+            counts_ok = all(db.count_features_of_type(t) == sum(1 for f in alive if f["ftype"] == t) for t in set(wf) | {"gene", "exon"})
+            res.evaluations += 1
+            if fts != wf or sq != ws or not counts_ok or len(list(db.all_features())) != len(alive):
+                res.oracle_failures.append(("featuretypes()/seqids()/counts are not the values present %s" % when,
+                                            {"lines": lines_of(feats), "history": steps, "featuretypes": fts,
+                                             "expected_featuretypes": wf, "seqids": sq, "expected_seqids": ws}))
+        check("after import")
+        for _ in range(r.randrange(1, 4)):
+            if not alive:
+                break
+            k = r.random()
+            if k < 0.6:
+                t = r.choice(sorted(set(f["ftype"] for f in alive)))
+                victims = [f for f in alive if f["ftype"] == t]
+                form = r.choice(["ids", "features"])
+                if form == "ids":
+                    db.delete([f["id"] for f in victims], make_backup=False)
+                else:
+                    db.delete([db[f["id"]] for f in victims], make_backup=False)
+                alive = [f for f in alive if f["ftype"] != t]
+                steps.append("delete all %r (%s)" % (t, form))
+            else:
+                nf = {"id": "new%d" % len(steps), "seqid": r.choice(["chrNew", "chr1"]), "source": "a", "ftype": r.choice(["novel", "gene"]),
+                      "start": "5", "end": "9", "score": ".", "strand": "+", "frame": ".", "extra": [], "note": "a"}
+                p2 = dbside.write_lines(os.path.join(ctx.scratch, "c11u.gff3"), lines_of([nf]))
+                with warnings.catch_warnings():
+                    warnings.simplefilter("ignore")
+                    db.update(p2, make_backup=False)
+                alive.append(nf)
+                steps.append("update with a %r on %r" % (nf["ftype"], nf["seqid"]))
+            check("after " + steps[-1])
+        res.count("histories")
+
     out = ctx.model(cmds)
     if out is not None:
         cur_rows = None
